@@ -1305,23 +1305,31 @@ func vC05ChaseCase(st vC05Step, ob vC05StepObs) (string, map[string]any) {
 		}
 		return "[" + strings.Join(strings.Split(strings.Repeat("mk_rrec N 0 0 0 0,", n), ",")[:n], "; ") + "]"
 	}
+	entryFull := func(h cache.VC05Hop) string {
+		return fmt.Sprintf("(mk_centry N %d %s %s %s %d %s %s %d %s %s %s)", id(h.StoredName), recs(h.FullRecs), dummies(h.FullNS), dummies(h.FullExtra),
+			h.FullRcode, bs[h.FullAD], bs[h.Live], h.TTL, bs[h.WireOK], bs[h.Recomposable], bs[h.Due])
+	}
 	entry := func(h cache.VC05Hop) string {
 		return fmt.Sprintf("(mk_centry N %d %s %s %s %d %s %s %d %s %s %s)", id(h.StoredName), recs(h.Recs), dummies(h.NS), dummies(h.Extra),
 			h.Rcode, bs[h.AD], bs[h.Live], h.TTL, bs[h.WireOK], bs[h.Recomposable], bs[h.Due])
 	}
-	view := func(v *cache.VC05Chase) string {
+	view := func(v *cache.VC05Chase, full bool) string {
 		if v == nil || len(v.Hops) == 0 {
 			return "None"
 		}
+		ent := entry
+		if full {
+			ent = entryFull
+		}
 		var rest []string
 		for _, h := range v.Hops[1:] {
-			rest = append(rest, fmt.Sprintf("(%d%%N, %s)", id(h.Asked), entry(h)))
+			rest = append(rest, fmt.Sprintf("(%d%%N, %s)", id(h.Asked), ent(h)))
 		}
 		rs := "[]"
 		if len(rest) > 0 {
 			rs = "[" + strings.Join(rest, "; ") + "]"
 		}
-		return fmt.Sprintf("(Some (%s, %s))", entry(v.Hops[0]), rs)
+		return fmt.Sprintf("(Some (%s, %s))", ent(v.Hops[0]), rs)
 	}
 	answers := func(raw []byte) ([]cache.VC05Rec, int, bool, bool) {
 		m := new(dns.Msg)
@@ -1343,16 +1351,12 @@ func vC05ChaseCase(st vC05Step, ob vC05StepObs) (string, map[string]any) {
 	qname := id(ref.Hops[0].Asked)
 	wview, segs, comp, wrep := "None", "None", "None", "None"
 	if ob.chW != nil && ob.chW.Stable {
-		wview = view(ob.chW)
+		wview = view(ob.chW, false)
 		if ob.chW.CodeOK {
-			// the names the segments were asked under: the question, then each hop's lookup name
+			// the folded stored names of the segments the code filled, in order
 			var ns []string
-			for i := range ob.chW.CodeSegs {
-				if i < len(ob.chW.Hops) {
-					ns = append(ns, strconv.Itoa(id(ob.chW.Hops[i].Asked)))
-				} else {
-					ns = append(ns, "0")
-				}
+			for _, n := range ob.chW.CodeSegs {
+				ns = append(ns, strconv.Itoa(id(n)))
 			}
 			segs = "(Some [" + strings.Join(ns, ";") + "]%N)"
 			if ob.chW.CompOK {
@@ -1367,8 +1371,16 @@ func vC05ChaseCase(st vC05Step, ob vC05StepObs) (string, map[string]any) {
 	}
 	mview, mrep := "None", "None"
 	if ob.chM != nil && ob.chM.Stable && ob.chMStable {
-		mview = view(ob.chM)
-		if a, rc, tc, ok := answers(ob.rawM); ok && !tc {
+		mview = view(ob.chM, true)
+		// the edns writer removes DNSSEC records for a client without DO after the chase: such a reply is
+		// comparable with the chase's own output only when no hop carries any
+		strippedLater := false
+		if !vC05ClientDO(st.raw) {
+			for _, h := range ob.chM.Hops {
+				strippedLater = strippedLater || h.FullDNSSEC
+			}
+		}
+		if a, rc, tc, ok := answers(ob.rawM); ok && !tc && !strippedLater {
 			mrep = fmt.Sprintf("(Some (%d%%N, %s))", rc, recs(a))
 		}
 	}
